@@ -101,6 +101,27 @@ func flavouredAtoms(info *types.Info, e ast.Node) []atom {
 	return out
 }
 
+// isArithmeticHelper: a function whose parameters and first result are all numeric (an index or size computation).
+func isArithmeticHelper(f *types.Func) bool {
+	sig, ok := f.Type().(*types.Signature)
+	if !ok || sig.Results().Len() == 0 || sig.Params().Len() < 2 {
+		return false
+	}
+	num := func(t types.Type) bool {
+		b, ok := t.Underlying().(*types.Basic)
+		return ok && b.Info()&types.IsNumeric != 0
+	}
+	if !num(sig.Results().At(0).Type()) {
+		return false
+	}
+	for i := 0; i < sig.Params().Len(); i++ {
+		if !num(sig.Params().At(i).Type()) {
+			return false
+		}
+	}
+	return true
+}
+
 func derefArr(t types.Type) (*types.Array, bool) {
 	if p, ok := t.Underlying().(*types.Pointer); ok {
 		t = p.Elem()
@@ -195,6 +216,7 @@ func r02AxisPairing(c *core.Ctx) {
 			pos     token.Pos
 		}
 		var stmts []stmtInfo
+		ncalls := 0
 		record := func(lhs ast.Expr, rhs ast.Expr) {
 			lname, fl := "", ""
 			switch l := ast.Unparen(lhs).(type) {
@@ -217,11 +239,49 @@ func r02AxisPairing(c *core.Ctx) {
 					for i := range s.Lhs {
 						record(s.Lhs[i], s.Rhs[i])
 					}
+				} else if len(s.Lhs) == 2 && len(s.Rhs) == 1 {
+					// v, ok := helper(…): the value is computed from the arguments
+					if _, isCall := ast.Unparen(s.Rhs[0]).(*ast.CallExpr); isCall {
+						record(s.Lhs[0], s.Rhs[0])
+					}
 				}
 			case *ast.ValueSpec:
 				for i, nm := range s.Names {
 					if i < len(s.Values) {
 						record(nm, s.Values[i])
+					}
+				}
+			case *ast.CallExpr:
+				// one call of a module helper never mixes x-flavoured and y-flavoured arguments (a helper shared by
+				// both axes is called once per axis)
+				if cal := core.Callee(info, s); cal != nil && cal.Pkg() != nil && core.IsModPath(cal.Pkg().Path()) && len(s.Args) >= 2 {
+					fls := map[string]string{}
+					for _, a := range s.Args {
+						for _, at := range flavouredAtoms(info, a) {
+							if _, has := fls[at.fl]; !has {
+								fls[at.fl] = at.text
+							}
+						}
+					}
+					// a helper with an x and a y parameter takes both axes by design
+					twoAxis := false
+					if sig, ok := cal.Type().(*types.Signature); ok {
+						px, py := false, false
+						for i := 0; i < sig.Params().Len(); i++ {
+							switch nameFlavour(sig.Params().At(i).Name()) {
+							case "x":
+								px = true
+							case "y":
+								py = true
+							}
+						}
+						twoAxis = px && py
+					}
+					if len(fls) > 0 && !twoAxis && !strings.HasSuffix(cal.Name(), "XY") && isArithmeticHelper(cal) {
+						ncalls++
+						construct := fmt.Sprintf("call-args-one-axis/%s/%s#%d", name, cal.Name(), ncalls)
+						c.Check(R, construct, s.Pos(), len(fls) == 1, "all axis-specific arguments belong to one axis",
+							fmt.Sprintf("the call %s mixes an x-axis operand (%s) with a y-axis operand (%s)", core.ExprStr(s), fls["x"], fls["y"]))
 					}
 				}
 			case *ast.CompositeLit:
